@@ -396,14 +396,30 @@ theorem capture_complete_counterexample :
   revert this
   decide
 
-/-- **capture_complete_partial.** On *flat* bodies — every line is an expression or `x = e` built
-from literals, variables, `+ - <` and parentheses (no inline `if`, no nested function, no call; this
-is exactly the part of the language where no nested expression list and no assignment inside an
-expression occurs) — the parser's analysis is complete for every parameter list: each declaratively
-free variable is in `accessed_non_locals`. Not covered by this theorem (covered by the
-correspondence only): bodies with inline `if`, calls and nested closures outside the F-C02-1/2
-shapes (`shapedBlock`). -/
+/-- **capture_complete_partial.** For every parameter list and every body whose lines are
+expressions built from literals, variables, `+ - <`, parentheses, inline `if … then … else …` and
+calls `f(args)`, or assignments `x = e` with such an `e` that either contains no inline `if`/call
+(flat) or does not read `x`: every declaratively free variable is in the parser's
+`accessed_non_locals` — nested expression lists (the branches of inline `if`s finalize the pending
+sets early) included. The excluded assignment shape (`x` read in an `e` with nested lists) contains
+the F-C02-1 shape, where the statement is false (`capture_complete_counterexample`).
+Not covered by this theorem (covered by the correspondence only): lines `x = e` that read `x` before
+the first nested list of `e` or through a call without inline `if`, and nested function literals
+(`x = |…| body`, propagation through `add_nested_accessed_non_locals`). -/
 theorem capture_complete_partial (ps : List Capture.Name) (body : List Ex)
+    (h : iteBlock body = true) (x : Capture.Name) (hx : x ∈ freeVars ps body) :
+    x ∈ accessed ps body :=
+  (iteBlock_complete body { assigned := ps } ps h ⟨rfl, rfl, fun _ => Iff.rfl⟩).2 x hx
+
+/-- `y = (if c then a else 3) + f(a)` ⏎ `a = a + y` ⏎ `a`: in the class, with four free variables -/
+example :
+    let body : List Ex := [.assign 5 (.add (.paren (.ite (.var 2) (.var 1) (.lit 3))) (.call 4 [.var 1])),
+                           .assign 1 (.add (.var 1) (.var 5)), .var 1]
+    iteBlock body = true ∧ freeVars [] body = [2, 1, 4] ∧ accessed [] body = [2, 1, 4] := by decide
+
+/-- **capture_complete_flat_partial.** The same for flat bodies (no inline `if`, no call), where
+`x = e` may read `x` anywhere in `e` (e.g. `x = x + 1`). -/
+theorem capture_complete_flat_partial (ps : List Capture.Name) (body : List Ex)
     (h : flatBlock body = true) (x : Capture.Name) (hx : x ∈ freeVars ps body) :
     x ∈ accessed ps body :=
   (flatBlock_complete body { assigned := ps } ps h ⟨rfl, rfl, fun _ => Iff.rfl⟩).2 x hx
